@@ -137,6 +137,10 @@ def run(tier, replay=None):
                 if res.get("broken"):
                     raise common.Broken("load %s: %s" % (res["id"], res["broken"]))
                 run_.evaluations += 1
+                if res.get("init_failed"):
+                    run_.diverge("mode=%s initialize-failed" % job["loads"][0]["mode"], "a client's handshake request got no usable answer while its connection was up: %s"
+                                 % res["init_failed"][:300], {"cmd": ["c01"], "input": job, "spec": "Correlation (EveryCallReturns)"})
+                    continue
                 bad, rp = judge_load(run_, job["loads"][0], res)
                 tr, ncalls = to_trace(res["trace"])
                 items.append((res["id"], tr))
@@ -195,6 +199,51 @@ def run(tier, replay=None):
                 run_.diverge("mode=%s outcome=%s answers=%d" % (kind, it["id"], n_ans), "request %s on %s was answered %d times: %s" % (it["body"], kind, n_ans, [f[:160] for f in obs["frames"]]),
                              {"cmd": ["rpcprobe"], "input": {"kind": kind, "set": "rich", "items": [it]}, "observed": obs})
             run_.nontriv(["err-outcome", kind, it["id"]])
+    had = bool(run_.violations) or bool(run_.known_hit)
+    # ---- the connection is lost while calls are outstanding, no retry configured (Correlation: ConnLost / Fail; the request is
+    # transmitted once - TransportResends is the defect): the raw fault server of C08 counts the requests it receives per call
+    b = tla.run_tlc("Correlation", "Correlation_bug_resend.cfg")
+    if b.ok or b.violation != "HandlerOnce":
+        raise common.Broken("self-test: a transport that re-sends should violate HandlerOnce")
+    run_.add_tlc(b)
+    lost = []
+    for client in ("json", "sse", "legacy"):
+        for fault in ("close", "reset"):
+            for at in (("b0", "headers-mid", "mid") if client != "legacy" else ("b0", "mid")):
+                for n in ((1, 2, 3) if tier == "thorough" else (rnd.choice((1, 2, 3)),)):
+                    lost.append({"id": "lost-%s-%s-%s-%d" % (client, fault, at, n), "client": client, "fault": fault, "at": at, "ncalls": n, "ctx": "none"})
+    lout = common.run_harness_json(["c08"], {"scenarios": lost}, timeout=900, crash_ok=True)
+    if "_crash" in lout:
+        run_.diverge("connection-lost process-crash", "the client process died: %s" % lout["_crash"][:1200], {"cmd": ["c08"], "input": {"scenarios": lost}})
+    else:
+        for sc, r in zip(lost, lout["results"]):
+            if r.get("broken"):
+                raise common.Broken("connection-lost scenario %s: %s" % (sc["id"], r["broken"]))
+            run_.evaluations += 1
+            rp = {"cmd": ["c08"], "input": {"scenarios": [sc]}, "observed": {"seen": r.get("seen"), "calls": r["calls"]}, "spec": "Correlation / TraceCorrelation (ConnLost, Fail)"}
+            seen = r.get("seen") or {}
+            n = sc["ncalls"]
+            ev = [{"e": "call", "c": k + 1} for k in range(n)]
+            ev += [{"e": "handler", "c": k + 1} for k in range(n) if seen.get("c%d" % k, 0) >= 1]
+            ev.append({"e": "connlost"})
+            extra = [(k, seen["c%d" % k]) for k in range(n) if seen.get("c%d" % k, 0) > 1]
+            for k, cnt in extra:
+                ev += [{"e": "handler", "c": k + 1}] * (cnt - 1)
+            for k, c in enumerate(r["calls"]):
+                if c.get("hung"):
+                    continue
+                ev.append({"e": "ret", "c": k + 1, "got": k + 1} if (c["ok"] and c["own"]) else {"e": "fail", "c": k + 1})
+            ev.append({"e": "end"})
+            if sc["client"] == "legacy":
+                ev = None      # one shared stream: which call the cut answer belonged to is the peer's choice; judged by the counts only
+            if extra:
+                run_.diverge("client=%s connection-lost request-transmitted-twice" % sc["client"],
+                             "no retry is configured, the connection was %s at %s: the peer received the request of call(s) %s more than once (%s)"
+                             % (sc["fault"], sc["at"], [k for k, _ in extra], seen), rp)
+            if ev:
+                items.append((sc["id"], ev))
+                rps[sc["id"]] = rp
+            run_.nontriv([sc["id"]])
     had = bool(run_.violations) or bool(run_.known_hit)
     rej = tracebatch.validate(run_, "TraceCorrelation", "TraceCorrelation.cfg", items, sep={"e": "reset"}, max_lines=6000)
     for tid, (pos, line) in rej.items():
